@@ -9,7 +9,7 @@ print(f"""You are helping to evaluate a verification framework by writing a real
 
 Library: fbcotter/pytorch_wavelets (PyTorch wavelet transforms). You have your OWN scratch git worktree of it at: {wt}
 Work ONLY inside {wt} (and scratch files under {wt}/_demo/). Do NOT touch /repo or /verif, and do not read anything under /verif.
-Run python as:  cd {wt} && PYTHONPATH={wt} /venv/bin/python ...   (torch, numpy, pywt (PyWavelets) and the numpy `dtcwt` reference package are installed; there is no network).
+Run python as:  cd {wt} && OMP_NUM_THREADS=1 MKL_NUM_THREADS=1 PYTHONPATH={wt} /venv/bin/python ...   (ALWAYS set the two thread variables - the machine is shared with many other jobs - and never run two pytest processes at once)   (torch, numpy, pywt (PyWavelets) and the numpy `dtcwt` reference package are installed; there is no network).
 
 The semantic property you must BREAK:
 
@@ -23,7 +23,7 @@ The semantic property you must BREAK:
 Your task: make ONE small source change to the library under {wt}/pytorch_wavelets/ that
   (a) still imports and runs (it "compiles"),
   (b) still passes the EXISTING test suite: the tests that pass without your change must still pass with it. Check with:
-        cd {wt} && PYTHONPATH={wt} /venv/bin/python -m pytest -q -p no:cacheprovider --timeout=900 -x -q tests/<relevant files> 
+        cd {wt} && OMP_NUM_THREADS=1 MKL_NUM_THREADS=1 PYTHONPATH={wt} /venv/bin/python -m pytest -q -p no:cacheprovider --timeout=900 -x -q tests/<relevant files> 
       (run at least the test files that exercise the code you touched, e.g. tests/test_dwt.py tests/test_dwt1d.py tests/test_dtcwt.py tests/test_scat.py tests/test_swt.py; note that some tests already fail WITHOUT your change - compare against the unmodified state, e.g. a `git archive HEAD | tar -x -C <dir>` export or `git diff > p.diff; git apply -R p.diff; ...; git apply p.diff` - do NOT use `git stash`: the stash is shared by every worktree of the repository and other people are working in sibling worktrees; tests that already fail don't count; tests/test_scat.py and tests/test_swt.py do not exist, the scattering tests are tests/test_scatnet_fwd.py and tests/test_scatnet_bwd.py),
   (c) makes the property above FALSE for some input/configuration.
 The change should look like a plausible mistake or "optimisation" a maintainer could commit, and it must need something SPECIFIC to manifest - an unusual size (odd, short, not a multiple of 4...), a particular mode/filter-length combination, a multi-step sequence of calls, a particular subset of arguments requiring grad, several channels or batch items, two cooperating sites that each look fine alone, etc. - NOT something that ordinary use (e.g. a 64x64 input with db2) would expose at once, and not something the existing tests catch. Prefer changes whose effect is a silently wrong NUMBER (or wrong shape/dtype/mutation, depending on the property) rather than a crash. Do not edit tests. {extra}
